@@ -13,6 +13,7 @@ directory against the source tree.
 """
 import os
 import vlib
+import e2e_common
 
 CUR = dict(AcceptAllFirst=False, FinalizeWithoutEnd=False, CountFailed=False, AckBeforeCount=False)
 SAFETY = ['TypeOK', 'Fidelity', 'NoFalseSuccessR', 'NoFalseSuccessS', 'NoFailure']
@@ -63,14 +64,19 @@ def grid(tier, seed, work):
     n_v, n_q = (45, 12) if tier == "quick" else (900, 220)     # per shard
     shards = 8 if tier == "quick" else 14
     results = []
+    lines = []
     for transports, sample, name in (('{"mock","vquic"}', n_v, "vnet"), ('{"quic"}', n_q, "quic")):
         ep = os.path.join(work, "grid_%s.ndjson" % name)
         r = vlib.run_tlc('TransferGrid', dict(constants=dict(Transports=transports, MaxConns=3), action_constraint='Emit'),
                          workers=4, edges_path=ep, timeout=600)
+        tp = os.path.join(work, "gridtrace_%s" % name)
         res = vlib.run_vh_sharded(['xfer-grid', '-edges', ep, '-sample', str(sample), '-seed', str(seed),
-                                   '-budget', '100s' if tier == "quick" else '15m'], shards, timeout=2400)
+                                   '-budget', '100s' if tier == "quick" else '15m', '-trace-out', tp], shards, timeout=2400)
         res['grid_rows'] = r['edges']
         results.append(res)
+        lines += e2e_common.collect(tp)
     m = vlib.merge_results(results)
     m['grid_rows'] = sum(r['grid_rows'] for r in results)
+    # the hook traces of all those transfers, validated with TLC against SessionTrace.tla
+    m['trace_rules'], m['trace_stats'] = e2e_common.validate(lines, work, "grid") if lines else ([], None)
     return m
